@@ -57,8 +57,8 @@ impl Check for C17 {
     }
     fn runs(&self, tier: Tier) -> u64 {
         match tier {
-            Tier::Quick => 200_000,
-            Tier::Thorough => 6_000_000,
+            Tier::Quick => 1_200_000,
+            Tier::Thorough => 36_000_000,
         }
     }
 
